@@ -28,10 +28,15 @@ META = {
     "functions": ["gfapy.field.numeric_array.decode/validate_encoded", "NumericArray.from_string (range check)", "NumericArray.validate/compute_subtype"],
     "bounds": "B strings '<subtype>,<v>' and '<subtype>,0,<v>' for every integer subtype letter and v = bound + d for every bound in {0, 127, 128, 255, 256, 32767, 32768, 65535, 65536, 2^31-1, 2^31, 2^32-1, 2^32, -1, -128, -129, -32768, -32769, -2^31, -2^31-1}, d in -1..1: decoded iff v lies in the range of the declared subtype",
     "timeout": {"quick": 300, "thorough": 600}, "parts": {"quick": 8, "thorough": 8}},
+  "h_positions": {"kind": "K",
+    "functions": ["edge gfa2 Validation._validate_record_type_specific_info/validate_positions", "fragment Validation._validate_record_type_specific_info/validate_positions",
+                  "gfa2 AlignmentType._substring_type", "LastPos", "Gfa.validate/__validate_gfa2_positions", "Line.__init__/validate"],
+    "bounds": "E and F lines whose first interval is (b[$], e[$]) with b, e ANY integers 0..6 and both '$' flags, on a segment of length slen = 1..5 with sequence '*' or 'ACGT' (slen need not be the sequence length); as a line on its own (begin <= end, '$' on begin implies '$' on end) and inside a Gfa that defines the segments (additionally: no position beyond slen, '$' exactly on position slen); second interval likewise for the F external positions; vlevel 1..3",
+    "timeout": {"quick": 300, "thorough": 600}, "parts": {"quick": 12, "thorough": 12}},
   "h_record_rules": {"kind": "L",
     "functions": ["Construction.__init__/_initialize_positional_fields/_initialize_tags/_initialize_tag", "Validate._validate_record_type_specific_info",
                   "segment LengthGFA1.validate_length", "path Validation", "edge gfa2 Validation.validate_positions", "fragment Validation", "Line.validate/validate_field"],
-    "bounds": "per record type (S1,S2,L,C,P,E,G,F,O,U,H): number of positional fields 0..n+2; duplicate tag names; predefined tag with every datatype letter; LN:i:<n> vs sequence of length 0..4 (n any integer 0..99); path with 1..4 segments and 0..5 overlaps; beg<=end and '$' rules of E positions via symbolic small ints; vlevel 1..3",
+    "bounds": "per record type (S1,S2,L,C,P,E,G,F,O,U,H): number of positional fields 0..n+2; duplicate tag names; predefined tag with every datatype letter; LN:i:<n> vs sequence of length 0..4 (n any integer 0..99); path with 1..4 segments and 0..5 overlaps (cross-field position rules: h_positions); vlevel 1..3",
     "timeout": {"quick": 300, "thorough": 900}, "parts": {"quick": 16, "thorough": 16}},
  },
 }
@@ -255,3 +260,52 @@ def h_b_bounds(ti: int, bi: int, d: int, two: bool) -> bool:
     wl, wh = B_RANGE[w[0]]
     return wl <= v <= wh
   return True
+
+
+def h_positions(slen: int, hasseq: bool, b: int, e: int, db: bool, de: bool, frag: bool, ext: bool, conn: bool, vl: int) -> bool:
+  """
+  pre: 1 <= slen <= 5 and 0 <= b <= 6 and 0 <= e <= 6 and 1 <= vl <= 3
+  pre: frag or not ext
+  pre: (b + e) % NPART == PART
+  post: _ == True
+  """
+  vp.enter("pos")
+  L = vp.concretize(slen, 1, 5)
+  bb, ee = vp.concretize(b, 0, 6), vp.concretize(e, 0, 6)
+  level = vp.concretize(vl, 1, 3)
+  with NoTracing():
+    p1, p2 = str(bb) + ("$" if db else ""), str(ee) + ("$" if de else "")
+    seg1 = "S\t1\t" + str(L) + "\t" + ("ACGT" if hasseq else "*")
+    seg2 = "S\t2\t5\t*"
+    if not frag:
+      text = "E\t*\t1+\t2+\t" + p1 + "\t" + p2 + "\t0\t2\t*"
+    elif ext:
+      text = "F\t1\tr+\t0\t" + str(L) + "$\t" + p1 + "\t" + p2 + "\t*"       # positions on the external sequence
+    else:
+      text = "F\t1\tr+\t" + p1 + "\t" + p2 + "\t0\t2\t*"
+  # the rules a line can be checked for on its own
+  alone = bb <= ee and (de or not db)
+  unspecified = alone and db and de and bb < ee          # 'b$ e$' with b < e: one of them is wrong, which one is not decidable
+  if conn and not ext:
+    want = bb <= ee <= L and db == (bb == L) and de == (ee == L)
+  else:
+    want = alone
+  try:
+    if conn:
+      g = gfapy.Gfa([seg1, seg2, text], vlevel=level)
+      g.validate()
+      for l in g.lines: l.validate()
+    else:
+      l = gfapy.Line(text, vlevel=level)
+      l.validate()
+    real = True
+  except gfapy.Error:
+    real = False
+  vp.reached("pos", text, conn, level, real, want)
+  if real == want: return True
+  if unspecified and not (conn and not ext): return True
+  if real and not want and alone and vp.kf_active("KF-C04-positions-vs-slen"):
+    # listed finding: inside a Gfa a position is not compared with slen, except a '$' position when the segment has a sequence
+    dollar_ok = (not db or bb == L) and (not de or ee == L)
+    if not hasseq or dollar_ok: return True
+  return False
